@@ -63,6 +63,42 @@ type tunnelCase struct {
 	// its second phase - a leg the proxy cannot half-close never shows it while the tunnel lives -; it goes
 	// on streaming Down2 (≥ 256 KiB) once the client HAS half-closed and all of Up1 has arrived, and finishes
 	NoWaitEOF bool `json:"no_wait_eof,omitempty"`
+	// UpgradeReq (upgrade modes): how the request that asks for the protocol switch spells its version and its
+	// Connection field(s), an index into upgradeReqs. 0 = HTTP/1.1 with "Connection: Upgrade"; the others carry the
+	// close option next to Upgrade (token order / spelling / several field lines), are sent as HTTP/1.0, or carry
+	// keep-alive next to Upgrade
+	UpgradeReq int `json:"upgrade_req,omitempty"`
+}
+
+// upgradeReq is one way to ask for a protocol switch. closes: http.ReadRequest sets Request.Close for it (the
+// close connection option of RFC 9110 7.6.1, or HTTP/1.0 without keep-alive) - which is about the connection
+// AFTER the exchange and must make no difference to the tunnel the 101 opens (the repaired F52: the 101 went
+// out with "Connection: close" and the connection was closed instead of being tunnelled).
+type upgradeReq struct {
+	label, proto string
+	conn         []string // one Connection field line each
+	closes       bool
+}
+
+var upgradeReqs = []upgradeReq{
+	{"plain", "HTTP/1.1", []string{"Upgrade"}, false},
+	{"upgrade,close", "HTTP/1.1", []string{"Upgrade, close"}, true},
+	{"close,upgrade", "HTTP/1.1", []string{"close, Upgrade"}, true},
+	{"spelling:upgrade,CLOSE", "HTTP/1.1", []string{"upgrade,CLOSE"}, true},
+	{"two-lines:upgrade|close", "HTTP/1.1", []string{"Upgrade", "close"}, true},
+	{"two-lines:close|upgrade", "HTTP/1.1", []string{"Close", "Upgrade"}, true},
+	{"keep-alive,upgrade,close", "HTTP/1.1", []string{"keep-alive, Upgrade", "close"}, true},
+	{"http/1.0:upgrade", "HTTP/1.0", []string{"Upgrade"}, true},
+	{"http/1.0:upgrade,close", "HTTP/1.0", []string{"Upgrade, close"}, true},
+	{"http/1.0:keep-alive,upgrade", "HTTP/1.0", []string{"keep-alive, Upgrade"}, false},
+	{"keep-alive,upgrade", "HTTP/1.1", []string{"keep-alive, Upgrade"}, false},
+}
+
+func upgradeReqOf(tc *tunnelCase) upgradeReq {
+	if tc.UpgradeReq < 0 || tc.UpgradeReq >= len(upgradeReqs) {
+		return upgradeReqs[0]
+	}
+	return upgradeReqs[tc.UpgradeReq]
 }
 
 // payload derives n bytes from a seed (splitmix64).
@@ -301,7 +337,12 @@ func readAll(r io.Reader, limit int, tick func()) ([]byte, error) {
 func clientHead(tc *tunnelCase, far string) []byte {
 	bm := baseMode(tc.Mode)
 	if bm == "upgrade" {
-		return []byte("GET http://up.test/" + far + " HTTP/1.1\r\nHost: up.test\r\nConnection: Upgrade\r\nUpgrade: verif\r\n\r\n")
+		v := upgradeReqOf(tc)
+		head := "GET http://up.test/" + far + " " + v.proto + "\r\nHost: up.test\r\n"
+		for _, c := range v.conn {
+			head += "Connection: " + c + "\r\n"
+		}
+		return []byte(head + "Upgrade: verif\r\n\r\n")
 	}
 	head := "CONNECT " + far + ".test:443 HTTP/1.1\r\nHost: " + far + ".test:443\r\n"
 	if bm == "terminate" {
